@@ -507,6 +507,36 @@ func pubsubAnnounceVsClose(nClose int) *sched.Scenario {
 	}
 }
 
+// K14: direct announcements (Subscriber.Announce) to a subscriber whose
+// receiver republishes them on a gossipsub topic (WithResend(true)) || Close:
+// Close can arrive while the announcement waits to be handed over. Every call
+// returns and no goroutine of the library stays behind.
+func resendAnnounceVsClose() *sched.Scenario {
+	name := "K14-announcements-with-resend-vs-close"
+	return &sched.Scenario{Name: name, MaxSteps: 4000,
+		Setup: func(e *sched.Exec) ([]sched.Thread, func()) {
+			w := schedfx.New(e, schedfx.Options{Pubs: 1, ChainLen: 3, Pubsub: true, Resend: true, Prestore: true})
+			p, ch := w.Pubs[0], w.Chains[0]
+			return []sched.Thread{
+				{Name: "A", Fn: func() {
+					// the advertisement announced is the one already synced: the
+					// sync it triggers has nothing to do, which keeps the part of
+					// the execution after the hand-over short
+					for _, h := range []int{0} {
+						e.Log("A call Announce")
+						err := w.Sub.Announce(context.Background(), ch.Cids[h], p.AddrInfo())
+						e.Log("A ret Announce err=%v", err)
+					}
+				}},
+				closeThread(e, w, "C1"),
+			}, finish(e, w)
+		},
+		Check: func(e *sched.Exec) []sched.Finding {
+			return common(e, name, []string{"A", "C1"})
+		},
+	}
+}
+
 // K6: two announcements of one publisher and Close, every block already in the
 // destination store (syncs make no block requests and can complete). The first
 // sync is held inside its block hook for ad 1 at an idle point, which the
@@ -661,7 +691,7 @@ func postClose(call string) *sched.Scenario {
 
 func TestCheck(t *testing.T) {
 	r := vp.New("C15", "model_checking",
-		"scenarios on the real subscriber built with the instrumentation overlay (gated in-memory publisher, chain of 2-3 signed ads): K1 explicit sync (queried head) || Close, with one and with two concurrent Close callers (a sync that reports success must have reported every block); K11 the same with a segmented sync (segment size 1); K7 explicit syncs of two publishers || Close; K12 two explicit syncs of one publisher (the second waits for its turn) || Close; K8 announce-triggered syncs of two publishers under a limit of one at a time || Close; K9 an explicit sync whose block hook makes a nested explicit sync of another publisher || Close; K2 announce-triggered sync || Close; K13 an announce-triggered sync whose block request is never answered || Close, with the plain and the retrying HTTP client and a request time-out of one hour (Close must not take that long on the bubble's clock); K10 the subscriber with a libp2p host and a real gossipsub topic, an announcement published on the topic (it reaches the subscriber through the receiver's pubsub watcher goroutine) || Close (thorough: two Close callers); K6 two announcements of one publisher and Close with every block already local, the first sync held in its block hook until nothing else can move (a sync still pending when Close cancels must be abandoned); K3 listener registration and cancellation || Close; K5 each of 11 entry points called after Close has returned. All interleavings at the scheduling points (locks, atomics, channel operations, selects, spawns, requests, hook calls, observations) up to the preemption bound, so Close starts at every point of a sync. 'Blocks forever' is decided by quiescence with the caller not finished. states = distinct decision states; transitions = scheduling steps; traces = executions of the real code.",
+		"scenarios on the real subscriber built with the instrumentation overlay (gated in-memory publisher, chain of 2-3 signed ads): K1 explicit sync (queried head) || Close, with one and with two concurrent Close callers (a sync that reports success must have reported every block); K11 the same with a segmented sync (segment size 1); K7 explicit syncs of two publishers || Close; K12 two explicit syncs of one publisher (the second waits for its turn) || Close; K8 announce-triggered syncs of two publishers under a limit of one at a time || Close; K9 an explicit sync whose block hook makes a nested explicit sync of another publisher || Close; K2 announce-triggered sync || Close; K13 an announce-triggered sync whose block request is never answered || Close, with the plain and the retrying HTTP client and a request time-out of one hour (Close must not take that long on the bubble's clock); K10 the subscriber with a libp2p host and a real gossipsub topic, an announcement published on the topic (it reaches the subscriber through the receiver's pubsub watcher goroutine) || Close (thorough: two Close callers); K14 a direct announcement to a subscriber whose receiver republishes them on a gossipsub topic (WithResend) || Close; K6 two announcements of one publisher and Close with every block already local, the first sync held in its block hook until nothing else can move (a sync still pending when Close cancels must be abandoned); K3 listener registration and cancellation || Close; K5 each of 11 entry points called after Close has returned. All interleavings at the scheduling points (locks, atomics, channel operations, selects, spawns, requests, hook calls, observations) up to the preemption bound, so Close starts at every point of a sync. 'Blocks forever' is decided by quiescence with the caller not finished. states = distinct decision states; transitions = scheduling steps; traces = executions of the real code.",
 		"cooperative scheduling at synchronization operations; priority selects in source order; one publisher",
 		"goroutine leak = a goroutine of the bubble with a go-libipni frame after Close and cleanup",
 	)
@@ -674,7 +704,7 @@ func TestCheck(t *testing.T) {
 	if vp.Thorough() {
 		bound = 3
 	}
-	scs := []*sched.Scenario{pendingAnnounceVsClose(), twoExplicitVsClose(), limitedAnnouncesVsClose(), nestedSyncVsClose(), pubsubAnnounceVsClose(1), explicitVsCloseSeg(1, 1), twoExplicitOfOnePublisherVsClose(), explicitVsClose(1), explicitVsClose(2), announceVsClose(), stalledAnnounceVsClose(false), stalledAnnounceVsClose(true), listenerVsClose()}
+	scs := []*sched.Scenario{pendingAnnounceVsClose(), twoExplicitVsClose(), limitedAnnouncesVsClose(), nestedSyncVsClose(), pubsubAnnounceVsClose(1), resendAnnounceVsClose(), explicitVsCloseSeg(1, 1), twoExplicitOfOnePublisherVsClose(), explicitVsClose(1), explicitVsClose(2), announceVsClose(), stalledAnnounceVsClose(false), stalledAnnounceVsClose(true), listenerVsClose()}
 	if vp.Thorough() {
 		scs = append(scs, pubsubAnnounceVsClose(2))
 	}
@@ -688,7 +718,12 @@ func TestCheck(t *testing.T) {
 	}
 	start := time.Now()
 	weight := func(i int) float64 { // the K5 scenarios are nearly sequential and cheap
-		if i < 7 {
+		if strings.HasPrefix(scs[i].Name, "K14-") {
+			// every execution creates a libp2p host and a gossipsub: about
+			// ten times the cost of the others per schedule
+			return 20
+		}
+		if i < 8 {
 			return 5
 		}
 		return 1
